@@ -244,6 +244,14 @@ pub fn apply_layout_table<T: LayoutTable>(
                     continue;
                 };
 
+                #[cfg(rustybuzz_verif)]
+                crate::hb::set_digest::verif_monitor_digest(
+                    &ctx.digest,
+                    ctx.buffer.info[..ctx.buffer.len]
+                        .iter()
+                        .map(|i| ttf_parser::GlyphId(i.glyph_id as u16)),
+                );
+
                 if lookup.digest().may_have(&ctx.digest) {
                     ctx.lookup_index = lookup_map.index;
                     ctx.set_lookup_mask(lookup_map.mask);
